@@ -20,6 +20,11 @@ CLAIMS = {
    text="Every cell (kind x shape x index form x operator {=,+=,-=,*=,/=} x source {scalar, vector, wrong kind} x in-range / out-of-range variant) runs one statement in a session holding the target, a bystander and then compares every element, the shape, the kind, the bystander and the read-back with the model; failing statements must leave all symbols unchanged.",
    note="Trusts the harness model; sources are written as typed literals (N<kind>); a statement form that fails on in-range input is treated as unsupported and only its atomicity is judged.",
    ref="6/C04"),
+ "C05": dict(
+   technique="runtime monitoring: copy-semantics reference store compared with deep snapshots of Interpreter::symbols() after every statement of a session (alias matrix, invalid-statement classes, random sessions)",
+   text="Sessions are interpreted one statement at a time; after each statement every name other than the statement's target must be bitwise unchanged, the set of names must match, the stated invalid classes must be errors, and any error must leave the whole store unchanged. The alias matrix enumerates every way y can be bound from x against every mutation of x for 8 value kinds.",
+   note="For the target of a successful statement the model adopts the implementation's value. Random sessions are composed only from constructs that are isolation-clean on their own (aliasing define forms are exercised in the alias matrix, where each failing cell is an exactly listed known finding).",
+   ref="6/C05"),
 }
 NOT_YET = "not claimed yet: the monitor for this property is still being built in this session (see DESIGN.md section 6 for the planned check)"
 
